@@ -181,7 +181,9 @@ impl Dictionary for MutableDictionary {
                     None
                 }
             })
-            .sorted_unstable_by_key(|a| a.1)
+            // Words at the same distance are ordered by their spelling: the word map iterates in
+            // an order that differs from one dictionary instance to the next.
+            .sorted_unstable_by(|a, b| a.1.cmp(&b.1).then_with(|| a.0.cmp(b.0)))
             .take(max_results)
             .map(|(word, edit_distance)| FuzzyMatchResult {
                 word,
